@@ -23,7 +23,7 @@ RULE = ("one evaluation = one generated history (2-4 client sessions, up to 40 o
 COMPONENTS = {"real": ["subsequence/subsequencealignment.py (SubsequenceAlignment, SAMatch, generators)", "dtw.warping_paths / warping_paths_fast",
                        "dtw_ndim.warping_paths(_fast)", "dtw.best_path", "C engine when use_c"],
               "stub": ["client sessions and their interleaving (seeded scheduler)", "reference model: brute-force subsequence DTW in /verif/sim/models/dtw_ref.py"]}
-ASSUMPTIONS = ["bounds: query length 1..6, series length 1..12, ndim 1..2, histories <= 40 ops",
+ASSUMPTIONS = ["bounds: mostly query length 1..6 and series length 1..12 (one history in 12: query 6..12, series 13..40, up to ~60 ops), ndim 1..2",
                "index/segment comparisons against the fresh twin are skipped when the matching function has near-ties (< 1e-7); values use rel. tol 1e-9"]
 TOL = 1e-9
 
@@ -45,8 +45,9 @@ def gen_history(st):
             return [[val(), val()] for _ in range(L)]
         return [val() for _ in range(L)]
 
-    lq = 1 + rng.below(6)
-    ls = 1 + rng.below(12)
+    big = rng.below(12) == 0         # swarm sizing: one history in 12 uses long inputs
+    lq = 6 + rng.below(7) if big else 1 + rng.below(6)
+    ls = 13 + rng.below(28) if big else 1 + rng.below(12)
     query = series(lq)
     ser = series(ls)
     if rng.below(3) == 0 and ls >= lq:
@@ -63,14 +64,14 @@ def gen_history(st):
         programs[rng.below(nsess)].append({"op": "align", "fast": rng.below(4) == 0})
     for s in range(nsess):
         my_streams = []
-        for _ in range(2 + rng.below(9)):
+        for _ in range((6 + rng.below(14)) if big else (2 + rng.below(9))):
             k = rng.below(20)
             if k < 5 or (not my_streams and k < 10):
                 kind = rng.choice(["kbest", "kbest", "kbest", "kbest_fast", "best_matches", "best_matches_fast", "knee"])
-                o = {"op": "open", "stream": sid, "kind": kind, "overlap": rng.choice([0, 0, 0, 1, 2, 5]),
-                     "minlength": rng.choice([2, 2, 1, 3, None]), "maxlength": rng.choice([None, None, None, lq, lq + 1, 2 * lq])}
+                o = {"op": "open", "stream": sid, "kind": kind, "overlap": rng.choice([0, 0, 0, 1, 2, 5] + ([8, 12] if big else [])),
+                     "minlength": rng.choice([2, 2, 1, 3, None] + ([6, 10] if big else [])), "maxlength": rng.choice([None, None, None, lq, lq + 1, 2 * lq])}
                 if kind.startswith("kbest"):
-                    o["k"] = rng.choice([1, 2, 3, 5, None])
+                    o["k"] = rng.choice([1, 2, 3, 5, None] + ([8, 12, None] if big else []))
                 elif kind.startswith("best_matches"):
                     o["factor"] = rng.choice([1.0, 1.5, 2, 4])
                 else:
@@ -186,7 +187,13 @@ def execute(history):
     setup = history["setup"]
     q, s, nd, pen = setup["query"], setup["series"], setup["ndim"], setup["penalty"]
     lq, ls = len(q), len(s)
-    model_mf, _ = dtw_ref.subsequence_matching(q, s, penalty=pen, ndim=nd)
+    if ls <= 12:
+        model_mf, _ = dtw_ref.subsequence_matching(q, s, penalty=pen, ndim=nd)
+        alt = dtw_ref.subsequence_matching_free_start(q, s, penalty=pen, ndim=nd)
+        if any(not close(a, b) for a, b in zip(model_mf, alt)):
+            raise core.HarnessError("reference models disagree: brute force %r vs free-start DP %r" % (model_mf, alt))
+    else:
+        model_mf = dtw_ref.subsequence_matching_free_start(q, s, penalty=pen, ndim=nd)
     fin = sorted(v for v in model_mf if v < math.inf)
     near_tie = any(b - a < 1e-7 for a, b in zip(fin, fin[1:]))
     sa = _mk(setup)
